@@ -147,6 +147,13 @@ class FnTranslator:
             if a.kind == "A" and b.kind == "A" and isinstance(op, ast.Add):
                 return Val(f"(Arr.add {a.code} {b.code})", "A")
             raise Unsupported(f"line {e.lineno}: array operation")
+        if isinstance(op, ast.Mod):
+            if isinstance(e.right, ast.Constant) and e.right.value == 1 and a.kind == "R":
+                return Val(f"({a.code} - RealLike.ofInt (RealLike.floor {a.code}))", "R")   # Python float % 1 ∈ [0,1)
+            raise Unsupported(f"line {e.lineno}: modulo other than `x % 1` on a real")
+        if isinstance(op, ast.Pow):
+            a, b = self.to_real(a), self.to_real(b)
+            return Val(f"(RealLike.pow {a.code} {b.code})", "R")
         if sym is None:
             raise Unsupported(f"line {e.lineno}: operator {type(op).__name__}")
         if a.kind == "R" or b.kind == "R" or isinstance(op, ast.Div):
@@ -223,7 +230,23 @@ class FnTranslator:
             v = self.expr(e.args[0], env)
             if v.kind in ("N", "Z"):
                 return v
-            raise Unsupported("int() of real")
+            if v.kind == "R":
+                return Val(f"(RealLike.trunc {v.code})", "Z")
+            raise Unsupported("int() of " + v.kind)
+        if name == "ceil" and len(e.args) == 1:
+            v = self.to_real(self.expr(e.args[0], env))
+            return Val(f"(RealLike.ceil {v.code})", "Z")
+        if name == "round" and len(e.args) == 1:
+            v = self.expr(e.args[0], env)
+            if v.kind in ("N", "Z"):
+                return v
+            return Val(f"(RealLike.roundEven {v.code})", "Z")
+        if name in ("min", "max") and len(e.args) == 2:
+            a, b = self.expr(e.args[0], env), self.expr(e.args[1], env)
+            if a.kind in ("N", "Z") and b.kind in ("N", "Z"):
+                op = "≤" if name == "min" else "≥"
+                return Val(f"(if ({a.code} : Int) {op} ({b.code} : Int) then ({a.code} : Int) else ({b.code} : Int))", "Z")
+            raise Unsupported(f"{name} on reals")
         if name == "float" and len(e.args) == 1:
             return self.to_real(self.expr(e.args[0], env))
         if name == "mean" and len(e.args) == 1:
@@ -684,6 +707,13 @@ def gen_cuda(known: Dict[str, FnInfo], repo: str = REPO) -> Tuple[str, Dict[str,
     return text, known, errs
 
 
+UTILS_SIGS = {"kaiser_alpha": {"psll": "R"}, "kaiser_rov": {"alpha": "R"}, "round_half_up": {"val": "R"}}
+
+
+def gen_utils(repo: str = REPO) -> Tuple[str, Dict[str, FnInfo], List[str]]:
+    return translate_region(os.path.join(repo, "speckit/utils.py"), list(UTILS_SIGS.keys()), UTILS_SIGS, {})
+
+
 GEN_DIR = os.path.join(os.path.dirname(os.path.abspath(__file__)), "..", "lean", "SpecKitV", "Gen")
 
 
@@ -709,6 +739,9 @@ def regenerate(repo: str = REPO) -> Dict[str, List[str]]:
     write_if_changed(os.path.join(GEN_DIR, "Attrs.lean"), text)
     report["Attrs"] = errs
     report["_attr_table"] = table  # type: ignore
+    text, _k, errs = gen_utils(repo)
+    write_if_changed(os.path.join(GEN_DIR, "Utils.lean"), text)
+    report["Utils"] = errs
     text, errs = gen_ctor(repo)
     write_if_changed(os.path.join(GEN_DIR, "Ctor.lean"), text)
     report["Ctor"] = errs
